@@ -350,3 +350,43 @@ pub fn c4() -> OptionParser<(u32, Cmd1)> {
     let cmd = c1_add().command("add");
     construct!(t, cmd).to_options()
 }
+
+/// switch declared before a repeated argument (the switch's consumption precedes the loop)
+pub fn g4() -> OptionParser<(bool, Vec<u32>, u32)> {
+    let a = short('a').long("alpha").switch();
+    let d = short('d').long("delta").argument::<u32>("D").many();
+    let f = short('f').long("fall").argument::<u32>("F").fallback(1);
+    construct!(a, d, f).to_options()
+}
+
+/// group of two required arguments under `fallback_with`
+fn grp_ab_fw() -> impl Parser<(u32, u32)> {
+    grp_ab().fallback_with(|| Ok::<_, String>((0, 0)))
+}
+
+pub fn o3() -> OptionParser<((u32, u32), bool)> {
+    let g = grp_ab_fw();
+    let s = short('s').long("sw").switch();
+    construct!(g, s).to_options()
+}
+
+#[derive(Debug, Clone, PartialEq)]
+pub enum Flag3 {
+    A,
+    B,
+    C,
+}
+
+fn flag3() -> impl Parser<Flag3> {
+    let a = short('a').long("alpha").req_flag(Flag3::A);
+    let b = short('b').long("beta").req_flag(Flag3::B);
+    let c = short('c').long("gamma").req_flag(Flag3::C);
+    construct!([a, b, c])
+}
+
+/// repeated choice between three flags
+pub fn a4() -> OptionParser<(Vec<Flag3>, bool)> {
+    let alt = flag3().many();
+    let s = short('s').long("sw").switch();
+    construct!(alt, s).to_options()
+}
